@@ -28,6 +28,9 @@ var checks = map[string]check{}
 func register(id, level string, fn checkFn) { checks[id] = check{level, fn} }
 
 func main() {
+	if len(os.Args) >= 3 && os.Args[1] == "symbp" {
+		os.Exit(run.SymBPSubprocess(os.Args[2:]))
+	}
 	if len(os.Args) >= 3 && os.Args[1] == "ladder" {
 		os.Exit(ladder(os.Args[2]))
 	}
